@@ -398,3 +398,39 @@ Theorem C03_top_entry_popped_unless_first_visit_tree : forall P p n s x ts,
     forall d, d <> x -> get d s <> None -> get d s' = get d s.
 Proof. exact top_entry_popped_unless_first_visit_tree. Qed.
 Print Assumptions C03_top_entry_popped_unless_first_visit_tree.
+
+(* ==== EVERY pass terminates (proofs/MachineC03P.v) ==== *)
+From Asynq Require Import proofs.MachineC03P.
+
+(* the uncomputed descendants of two distinct uncomputed dependencies of an uncomputed task are disjoint
+   (ub s d z: z is below d through dependency lists of uncomputed tasks, along uncomputed dependencies) *)
+Theorem C03_sibling_subtrees_disjoint : forall r s x tkx d1 d2, deps_younger s -> deps_ok r s ->
+  get x s = Some (mkFut None (KTask tkx)) -> In d1 (tk_deps tkx) -> In d2 (tk_deps tkx) ->
+  computed d1 s = false -> computed d2 s = false -> d1 <> d2 ->
+  forall z, ub s d1 z -> ub s d2 z -> False.
+Proof. exact ub_disjoint. Qed.
+Print Assumptions C03_sibling_subtrees_disjoint.
+
+(* EVERY _execute pass terminates: from the head of wait_for with the awaited task uncomputed - the start of
+   the first pass or the configuration right after a flush - the machine reaches the end of the pass
+   (MAfterExec) after finitely many steps, with an empty task stack *)
+Theorem C03_every_pass_terminates_tree : forall P p n,
+  pointwise P -> tree p ->
+  let h := fst (create [] (FTask p) (st0 P)) in
+  let s1 := snd (create [] (FTask p) (st0 P)) in
+  (forall n, no_unwind P n (start h s1)) ->
+  c_mode (run P n (start h s1)) = MWaitHead -> computed h (c_st (run P n (start h s1))) = false ->
+  exists m, c_mode (run P (n + m) (start h s1)) = MAfterExec /\ tasks (c_st (run P (n + m) (start h s1))) = [].
+Proof. exact every_pass_terminates_tree. Qed.
+Print Assumptions C03_every_pass_terminates_tree.
+
+(* TERMINATION with one hypothesis left besides the guard: the number of futures created is bounded *)
+Theorem C03_terminates_if_allocation_bounded_tree : forall P p N,
+  pointwise P -> tree p ->
+  let h := fst (create [] (FTask p) (st0 P)) in
+  let s1 := snd (create [] (FTask p) (st0 P)) in
+  (forall n, no_unwind P n (start h s1)) ->
+  (forall n, (top_next (c_st (run P n (start h s1))) <= Z.of_nat N)%Z) ->
+  exists n, c_mode (run P n (start h s1)) = MDone (eval p).
+Proof. exact terminates_if_allocation_bounded_tree. Qed.
+Print Assumptions C03_terminates_if_allocation_bounded_tree.
